@@ -34,6 +34,8 @@ pub struct SessLog {
     pub idle_cv: Condvar,
     pub ended: Mutex<bool>,
     pub session_id: Mutex<Option<u32>>,
+    /// name of the thread that created this log (to find the log of an Fsm created inside the library)
+    pub owner: Mutex<Option<String>>,
 }
 
 pub struct RunCtx {
@@ -69,6 +71,7 @@ impl RunCtx {
             idle_cv: Condvar::new(),
             ended: Mutex::new(false),
             session_id: Mutex::new(None),
+            owner: Mutex::new(std::thread::current().name().map(|x| x.to_string())),
         });
         s.push(l.clone());
         l
